@@ -1754,6 +1754,32 @@ fn lower_expr_with_args(
                             })
                         }
                     }
+                    // `t.1.0`: the lexer reads the two tuple indices as one float token.
+                    cst::Expr::FloatExpr(float_expr) => {
+                        let text = float_expr
+                            .value()
+                            .map(|token| token.to_string())
+                            .unwrap_or_default();
+                        let indices = text.split_once('.').and_then(|(outer, inner)| {
+                            Some((outer.parse::<usize>().ok()?, inner.parse::<usize>().ok()?))
+                        });
+                        let Some((outer, inner)) = indices else {
+                            ctx.push_error(
+                                Some(float_expr.syntax().text_range()),
+                                format!("Invalid tuple index: {}", text),
+                            );
+                            return None;
+                        };
+                        Some(ast::Expr::EProj {
+                            tuple: Box::new(ast::Expr::EProj {
+                                tuple: Box::new(lhs),
+                                index: outer,
+                                astptr,
+                            }),
+                            index: inner,
+                            astptr,
+                        })
+                    }
                     other => {
                         ctx.push_error(
                             Some(other.syntax().text_range()),
